@@ -200,6 +200,19 @@ pub fn run_case(c: &Case, ctx: &mut Ctx) -> CaseResult {
             if !p.iter().all(|q| q.is_exact_f64()) {
                 continue;
             }
+            // the library decides a.x - b <= 0 in f64; the point is only judged if its exact distance to every
+            // reported hyperplane exceeds a rigorous bound on the rounding error of that dot product (with rows
+            // scaled by 2^-32 next to rows scaled by 2^25 an interior point can sit at |x| ~ 4e9 with a margin
+            // of 1e-9, where a.x has to round)
+            let u = Q::from_f64(2f64.powi(-50) * (n as f64 + 2.0));
+            let safe = rows.iter().all(|r| {
+                let mag = r.a.iter().zip(&p).fold(r.b.abs(), |acc, (a, x)| &acc + &(a * x).abs());
+                &r.b - &qdot(&r.a, &p) > &u * &mag
+            });
+            if !safe {
+                ctx.count("interior_point_within_rounding_of_a_hyperplane", 1);
+                continue;
+            }
             interior_checked += 1;
             let pf: Vec<f64> = p.iter().map(|q| q.to_f64()).collect();
             // route with the library's own decision function
